@@ -36,7 +36,7 @@ def main():
         cov["states"] += r.get("states", 0)
     cov["deviations_caught_by_spec"] = ["CollapseEqualNames", "DropParseDiagsWhenAnalysisOk"]
     sc = pipescen.scenarios()
-    names = [n for n in sc if n.split("_")[0] in ("lex", "syn", "rule", "dup", "lex8", "rule8", "dup8")]
+    names = [n for n in sc if n.split("_")[0] in ("lex", "syn", "rule", "dup", "dupk", "cross", "lex8", "rule8", "dup8")]
     if tier == "quick":
         names = [n for n in names if not n.endswith("8_E2") and not n.endswith("8_S")]
     wd = vlib.workdir("c03_cli")
@@ -63,7 +63,7 @@ def main():
                                     "files": [(fn, t) for fn, t, _ in pipecheck.build_files(decls, a)]})
                     break
             else:
-                if kind.startswith("dup"):
+                if kind.startswith("dup") or kind == "cross":
                     codes = set(c for c, _, _ in obs["project_diags"])
                     if not codes & {"P0019", "P0020"}:
                         rep.add("duplicate-name-not-diagnosed", labels=labels | {"dupkind:" + name.split("_")[1]},
@@ -75,8 +75,8 @@ def main():
         cases, meta = [], []
         for a in multi:
             fidx = [i for i, f in enumerate(a) if any(d in f for d in fault_ids)]
-            if kind.startswith("dup"):
-                continue
+            if kind.startswith("dup") or kind == "cross":
+                continue          # a duplicate name is a property of the pair: a subset holding one of the two is valid
             for r_ in range(1, len(a)):
                 for sub in itertools.combinations(range(len(a)), r_):
                     if not all(i in sub for i in fidx):
